@@ -189,6 +189,40 @@ fn check(case: &Case, st: &mut Stats) -> Vec<Violation> {
         }
         if !v.is_empty() { break; }
     }
+    // isolation as non-interference: the row of an aircraft after the interleaved history equals its row after
+    // that aircraft's own frames alone, delivered at the same instants (only judged for an aircraft that never
+    // went stale, so that sweeps - which depend on everybody's frames - cannot have removed it in either run)
+    if v.is_empty() && applied_addrs.len() >= 2 && matches!(h.outcome, Outcome::FileOk | Outcome::SimEnd) {
+        let mut own: std::collections::BTreeMap<u32, Vec<(i64, Vec<u8>)>> = Default::default();
+        let mut unjudged_any = false;
+        for s in &h.steps {
+            for l in &s.lines {
+                let c = refm::classify(l);
+                if c.accepted && c.judged { own.entry(c.addr.unwrap()).or_default().push((s.t_us, l.clone())); } else if c.accepted { unjudged_any = true; }
+            }
+        }
+        // deterministic choice: the aircraft with the most frames (ties: lowest address)
+        let pick = own.iter().filter(|(_, fr)| fr.len() >= 2 && fr.windows(2).all(|w| (w[1].0 - w[0].0).div_euclid(1_000_000) < d) && (h.end_t_us - fr.last().unwrap().0).div_euclid(1_000_000) < d).max_by_key(|(a, fr)| (fr.len(), u32::MAX - **a));
+        if let (Some((a, frames)), false) = (pick, unjudged_any) {
+            let mut ops = vec![];
+            let mut prev = exec::T0_US;
+            for (t, l) in frames {
+                let mut b = l.clone();
+                b.push(b'\n');
+                ops.push(crate::script::Op::Data { dt_us: t - prev, bytes: crate::script::Bytes(b), tag: "own".into() });
+                prev = *t;
+            }
+            let solo = Script::file(case.script.args.clone(), ops);
+            let hs = exec::run(&solo);
+            st.executions += 1;
+            if let (Some(r_all), Some(r_solo)) = (h.final_table.get(a), hs.final_table.get(a)) {
+                st.probe("isolation_compared");
+                if r_all != r_solo {
+                    v.push(viol("C03.isolation", h.steps.len().saturating_sub(1), format!("row {:06X} after the interleaved history differs from its row after the same aircraft's own {} frames alone (alone -> interleaved): {}", a, frames.len(), diff_fields(r_solo, r_all).join("; ")), json!({})));
+                }
+            }
+        }
+    }
     if applied_addrs.len() >= 2 {
         st.nontrivial_runs += 1;
         if st.scripts.len() < crate::stats::MAX_SET { st.scripts.insert(fnv(serde_json::to_string(&case.script).unwrap().as_bytes())); }
